@@ -322,7 +322,20 @@ def ob_choi_rank(din, dout, r, form):
         from symnp.array import SymArray
         J = np.asarray(choi_oracle(i["A"], i["B"]))
         return np.linalg.matrix_rank(J.view(SymArray) if J.dtype == object else J)
-    return Obligation("choi_rank.is_rank_kernel_of_choi_matrix", cfg, build, call, oracle, neg_control=False)
+    def witness():
+        # paired families in which BOTH the left and the right operators are linearly dependent and terms combine:
+        # (A + D) X (B + C)^* written as four pairs has Choi rank 1; [[I, I], [I, -I]] is the zero map (rank 0)
+        if form != "pairs":
+            return []
+        rng = np.random.default_rng(8 + din + 3 * dout)
+        g = lambda: rng.integers(-3, 4, size=(dout, din)) / 2.0 + 1j * rng.integers(-3, 4, size=(dout, din)) / 2.0   # noqa: E731
+        A1, D, B1, C = g(), g(), g(), g()
+        out = [{"A": [A1, D, A1, D], "B": [B1, B1, C, C]}]
+        if din == dout:
+            I = np.eye(din, dtype=complex)
+            out.append({"A": [I, I], "B": [I, -I]})
+        return out
+    return Obligation("choi_rank.is_rank_kernel_of_choi_matrix", cfg, build, call, oracle, neg_control=False, witness=witness)
 
 
 def ob_extremal(d, r, form):
@@ -391,9 +404,22 @@ def ob_unitary(d, n_ops, form, exact):
     def fn(i):
         return is_unitary(as_form(i["A"], i["B"], form))
 
+    def minors(A0, A1):
+        a, c = np.asarray(A0).reshape(-1), np.asarray(A1).reshape(-1)
+        return [a[p] * c[q] - a[q] * c[p] for p in range(len(a)) for q in range(p + 1, len(a))]
+
     def assume(i):
         if n_ops > 1:
-            return []
+            # two LINEARLY INDEPENDENT operators (proportional ones describe a channel with one Kraus operator): some 2x2 minor of
+            # [vec A_0, vec A_1] is off zero by the margin, entries bounded
+            ms = minors(i["A"][0], i["A"][1])
+            if d == 1:
+                return [SymBool(False)]
+            alts = []
+            for m_ in ms:
+                m_ = lift(m_)
+                alts += [m_.real > M, m_.real < -M, m_.imag > M, m_.imag < -M]
+            return bounded(i["A"]) + [Or(*alts)]
         U = np.asarray(i["A"][0])
         I = np.identity(d)
         if exact:
@@ -402,12 +428,116 @@ def ob_unitary(d, n_ops, form, exact):
 
     def valid(ni):
         if n_ops > 1:
-            return True
+            return d > 1 and num_bounded(ni["A"]) and max(abs(complex(m_)) for m_ in minors(ni["A"][0], ni["A"][1])) > 2 * M
         U = ni["A"][0]
         if exact:
             return bool(np.allclose(U.conj().T @ U, np.identity(d), atol=1e-12))
         return num_bounded([U]) and bool(np.max(np.abs(U.conj().T @ U - np.identity(d))) > 2 * M)
-    return verdict_ob("is_unitary.verdict", cfg, build, fn, exact and n_ops == 1, assume, valid)
+    def witness():
+        if n_ops == 1:
+            return []
+        rng = np.random.default_rng(17 + d)
+        out = []
+        for _ in range(2):
+            Us = [np.linalg.qr(rng.normal(size=(d, d)) + 1j * rng.normal(size=(d, d)))[0] for _ in range(2)]
+            out.append({"A": [0.6 * Us[0], 0.8 * Us[1]], "B": [0.6 * Us[0], 0.8 * Us[1]]})
+        Z = np.diag(np.exp(2j * np.pi * np.arange(d) / d))
+        A = [np.identity(d, dtype=complex) * np.sqrt(0.5), Z * np.sqrt(0.5)]
+        out.append({"A": A, "B": A})
+        return out
+    # with several Kraus operators the verdict goes through the eigen-decomposition of the Choi matrix (data-dependent list
+    # lengths: one fork per eigenvalue): symbolic execution is cut at 8 paths and the verdict is checked on the witnesses
+    return verdict_ob("is_unitary.verdict", cfg, build, fn, exact and n_ops == 1, assume, valid,
+                      **({"witness": witness, "max_paths": 8} if n_ops > 1 else {}))
+
+
+def rescaled_list(A, weights):
+    """the same channel written with more Kraus operators than necessary: A_1 is replaced by w_1 A_1, w_2 A_1, ... with
+    sum w_k^2 = 1 (rational weights), optionally followed by zero operators"""
+    out = []
+    numeric = np.asarray(A[0]).dtype != object
+    for w in weights:
+        out.append(np.asarray(A[0]) * (float(w) if numeric else w))
+    return out + [np.asarray(a) for a in A[1:]]
+
+
+def ob_unitary_nonminimal(d, weights, form):
+    """a unitary channel X -> U X U^dagger written with proportional (or zero) Kraus operators is still a unitary channel"""
+    cfg = {"d": d, "form": form, "kraus_list": f"U scaled by {list(weights)}", "case": "exact=>True"}
+
+    def build(b):
+        return {"U": b.array("U", (d, d), "c")}
+
+    def fn(i):
+        A = rescaled_list([i["U"]], weights)
+        return is_unitary(as_form(A, A, form))
+
+    def assume(i):
+        U = np.asarray(i["U"])
+        I = np.identity(d)
+        return [eq(dagger(U) @ U, I), eq(U @ dagger(U), I)]
+
+    def valid(ni):
+        return bool(np.allclose(ni["U"].conj().T @ ni["U"], np.identity(d), atol=1e-12))
+
+    def witness():
+        rng = np.random.default_rng(5 + d)
+        out = [{"U": np.linalg.qr(rng.normal(size=(d, d)) + 1j * rng.normal(size=(d, d)))[0]} for _ in range(2)]
+        out.append({"U": np.roll(np.identity(d), 1, axis=0).astype(complex)})
+        return out
+    return verdict_ob("is_unitary.verdict_is_a_property_of_the_channel_not_of_the_kraus_list", cfg, build, fn, True, assume, valid,
+                      witness=witness, neg_control=False, max_paths=8)
+
+
+def ob_extremal_nonminimal(d, r, weights):
+    """is_extremal on a Kraus list that is not minimal: the verdict must be the one of a minimal list of the same channel
+    (Theorem 2.31 is a statement about linearly independent Kraus operators)"""
+    cfg = {"d": d, "rank": r, "kraus_list": f"A_1 scaled by {list(weights)}, then A_2..A_r", "form": "flat"}
+
+    def build(b):
+        A, _ = build_kraus(b, d, d, r, False)
+        return {"A": A}
+
+    def call(i):
+        return is_extremal(rescaled_list(i["A"], weights))
+
+    def oracle(i):
+        if r == 1:
+            return True
+        from symnp.array import SymArray
+        cols = []
+        for a in i["A"]:
+            for c in i["A"]:
+                cols.append(np.asarray(dagger(a) @ np.asarray(c)).reshape(-1))
+        Mm = np.stack(cols, axis=1)
+        rk = np.linalg.matrix_rank(Mm.view(SymArray) if Mm.dtype == object else Mm, tol=1e-9)
+        return rk == r * r
+
+    def post(res, exp, i):
+        if isinstance(res, (bool, np.bool_)) and isinstance(exp, (bool, np.bool_)):
+            return bool(res) == bool(exp)
+        return SymBool(res) == SymBool(exp)
+
+    def witness():
+        rng = np.random.default_rng(31 + d + r)
+        out = []
+        if r == 1:
+            out.append({"A": [np.linalg.qr(rng.normal(size=(d, d)) + 1j * rng.normal(size=(d, d)))[0]]})
+            out.append({"A": [np.identity(d, dtype=complex)]})
+        elif d == 2:
+            g = 0.3      # amplitude damping: extremal
+            out.append({"A": [np.array([[1, 0], [0, np.sqrt(1 - g)]], dtype=complex), np.array([[0, np.sqrt(g)], [0, 0]], dtype=complex)]})
+        return out
+    def assume(i):
+        if r > 1:
+            return []
+        U = np.asarray(i["A"][0])      # one Kraus operator: a channel only if it is an isometry (here: unitary)
+        return [eq(dagger(U) @ U, np.identity(d))]
+
+    def valid(ni):
+        return r > 1 or bool(np.allclose(ni["A"][0].conj().T @ ni["A"][0], np.identity(d), atol=1e-12))
+    return Obligation("is_extremal.verdict_is_a_property_of_the_channel_not_of_the_kraus_list", cfg, build, call, oracle, post=post,
+                      neg_control=False, tv=False, witness=witness, assume=assume, valid=valid)
 
 
 # ---- constructors ------------------------------------------------------------------------------
@@ -579,6 +709,25 @@ def ob_pauli(q, probs):
     return Obligation("constructor.pauli_channel.kraus_choi_direct_agree", cfg, build, call, oracle, exact_sqrt=True)
 
 
+def ob_pauli_properties(q, probs):
+    """the object the constructor RETURNS (no conversion by the harness) goes into the channel predicates: a Pauli channel is a
+    unital quantum channel of Choi rank = number of non-zero probabilities"""
+    cfg = {"qubits": q, "prob": [str(p) for p in probs], "passed_on": "as returned"}
+
+    def build(b):
+        return {}
+
+    def call(i):
+        Phi = pauli_channel(np.array([float(p) for p in probs]))
+        return [bool(is_trace_preserving(Phi)), bool(is_completely_positive(Phi)), bool(is_quantum_channel(Phi)), bool(is_unital(Phi)),
+                int(choi_rank(Phi)), type(Phi) is np.ndarray]
+
+    def oracle(i):
+        return [True, True, True, True, sum(1 for p in probs if p != 0), True]
+    return Obligation("constructor.pauli_channel.returned_choi_matrix_has_the_textbook_properties", cfg, build, call, oracle,
+                      neg_control=False, tv=False, dtype_variants=False)
+
+
 def ob_pauli_reject(probs, should_raise, form="ndarray"):
     cfg = {"prob": [str(p) for p in probs], "should_raise": should_raise, "prob_given_as": form}
 
@@ -644,8 +793,16 @@ def obligations(tier):
         for form in ["flat", "nested_col", "pairs"]:
             obs.append(ob_unitary(d, 1, form, True))
             obs.append(ob_unitary(d, 1, form, False))
-        obs.append(ob_unitary(d, 2, "flat", False))
-        obs.append(ob_unitary(d, 2, "nested_col", False))
+        if d > 1:
+            obs.append(ob_unitary(d, 2, "flat", False))
+            obs.append(ob_unitary(d, 2, "nested_col", False))
+    from fractions import Fraction as F
+    for d in [2, 3]:
+        for weights in [(F(3, 5), F(4, 5)), (1, 0)] + ([(F(1, 3), F(2, 3), F(2, 3))] if T else []):
+            for form in ["flat", "nested_col"] + (["pairs"] if T else []):
+                obs.append(ob_unitary_nonminimal(d, weights, form))
+            for r in [1, 2]:
+                obs.append(ob_extremal_nonminimal(d, r, weights))
     # constructors
     for d in [2, 3] + ([4] if T else []):
         obs.append(ob_choi_constructor("depolarizing", d, lambda param_p, d=d: depolarizing(d, param_p),
@@ -668,6 +825,8 @@ def obligations(tier):
     from fractions import Fraction as F
     for probs in [[F(1, 4)] * 4, [F(1, 2), F(1, 4), F(1, 8), F(1, 8)], [F(1), F(0), F(0), F(0)], [F(0), F(1, 16), F(9, 16), F(3, 8)]]:
         obs.append(ob_pauli(1, probs))
+        obs.append(ob_pauli_properties(1, probs))
+    obs.append(ob_pauli_properties(2, [F(1, 4), F(1, 8), F(1, 8)] + [F(1, 16)] * 4 + [F(1, 32)] * 8 + [F(0)]))
     # two qubits with weights that are NOT symmetric under exchanging the tensor factors (fixes the factor order)
     obs.append(ob_pauli(2, [F(1, 4), F(1, 8), F(1, 8)] + [F(1, 16)] * 4 + [F(1, 32)] * 8 + [F(0)]))
     if T:
